@@ -320,6 +320,24 @@ def spec_wire_forms(part):
             bodies.append((45, ref.ext_psk_key_exchange_modes(m)))
         for names in ([b'h2'], [b'http/1.1'], [b'h2', b'http/1.1'], [b'spdy/3.1', b'h2']):
             bodies.append((16, ref.ext_alpn(names)))
+        # every registered member of every remaining code space, alone in its list (the statement quantifies over
+        # every ALPN / NPN name, compression method, point format, PSK mode, certificate compression algorithm;
+        # every named group also as a key share)
+        from cryptodatahub.tls.algorithm import (TlsProtocolName, TlsNextProtocolName, TlsPskKeyExchangeMode,
+                                                 TlsCertificateCompressionAlgorithm, TlsTokenBindingParamater)
+        for m in TlsProtocolName:
+            bodies.append((16, ref.ext_alpn([m.value.code.encode('ascii')])))
+            bodies.append((16, ref.ext_alpn([b'h2', m.value.code.encode('ascii')])))
+        for m in TlsECPointFormat:
+            bodies.append((11, ref.ext_ec_point_formats([m.value.code])))
+        for m in TlsPskKeyExchangeMode:
+            bodies.append((45, ref.ext_psk_key_exchange_modes([m.value.code])))
+        for m in TlsCertificateCompressionAlgorithm:
+            bodies.append((27, ref.ext_compress_certificate([m.value.code])))
+        for m in TlsTokenBindingParamater:
+            bodies.append((24, ref.ext_token_binding(1, 0, [m.value.code])))
+        for x in groups:
+            bodies.append((51, ref.ext_key_share_client([(x, b'k' * 32)])))
         for n in (0, 1, 255, 256):
             bodies.append((21, ref.ext_padding(n)))
         for v in (64, 16384, 16385, 65535):
@@ -348,6 +366,19 @@ def spec_wire_forms(part):
                    (13172, ref.ext_npn_server([b'h2', b'http/1.1'])), (0xeeee, b'x')]
         for t, d in sbodies:
             yield ('sh_ext', sp.TlsHandshakeServerHello, ref.server_hello(0x0303, g, rnd, b's' * 32, 0x002f, 0, [(t, d)]))
+        from cryptodatahub.tls.algorithm import TlsNextProtocolName as _Npn, TlsProtocolName as _Alpn
+        for m in _Npn:
+            yield ('sh_ext', sp.TlsHandshakeServerHello,
+                   ref.server_hello(0x0303, g, rnd, b's' * 32, 0x002f, 0, [(13172, ref.ext_npn_server([m.value.code.encode('ascii')]))]))
+        for m in _Alpn:
+            yield ('sh_ext', sp.TlsHandshakeServerHello,
+                   ref.server_hello(0x0303, g, rnd, b's' * 32, 0x002f, 0, [(16, ref.ext_alpn([m.value.code.encode('ascii')]))]))
+        for x in groups:
+            yield ('sh_ext', sp.TlsHandshakeServerHello,
+                   ref.server_hello(0x0303, g, rnd, b's' * 32, 0x1301, 0, [(51, ref.ext_key_share_server(x, b'k' * 32))]))
+        for m in TlsCompressionMethod:
+            yield ('ch_comp', sp.TlsHandshakeClientHello, ref.client_hello(0x0303, g, rnd, b'', [0x002f], [m.value.code], None))
+            yield ('sh_comp', sp.TlsHandshakeServerHello, ref.server_hello(0x0303, g, rnd, b'', 0x002f, m.value.code, None))
         yield ('hrr', sp.TlsHandshakeHelloRetryRequest,
                ref.server_hello(0x0303, g, rnd, b's' * 32, 0x1301, 0, [(51, ref.ext_key_share_hrr(23)), (43, ref.ext_supported_versions_server(0x0304))], 6))
     elif part == 'other_messages':
